@@ -5,7 +5,8 @@ open EdbVerif EdbVerif.Types EdbVerif.Gen.Types EdbVerif.Driver
 /-!
 Line protocol of the C12 driver (tokens separated by single blanks).
 
-  Ty  ::= `S <scalar>` | `O <n>` | `T <k> Ty…` | `A Ty`
+  Ty  ::= `S <scalar>` | `D <k> <id>… <base scalar>` (user scalar: own id, user ancestors, concrete base)
+        | `E <n>` (enum) | `O <n>` | `T <k> Ty…` | `A Ty`
   Q   ::= `li <int>` | `lf <n> <d>` | `ls <word>` | `lb <0|1>` | `ln <int>` | `ld <n> <d>`
         | `em Ty` | `tu <k> Q…` | `ar <k> Q…` | `ca <fn> <k> Q…` | `cs Ty Q` | `va <i>`
         | `fo Q Q` | `fi Q Q` | `ob <t>` | `pa Q <p>` | `sh Q <k> Q…`
@@ -31,8 +32,20 @@ def parseFn (t : String) : Option Fn := Fn.all.find? fun f => fnIdent f == t
 
 abbrev P (α : Type) := List String → Option (α × List String)
 
+def pNats (k : Nat) (r : List String) : Option (List Nat × List String) :=
+  if r.length < k then none else
+  let ns := (r.take k).filterMap (·.toNat?)
+  if ns.length == k then some (ns, r.drop k) else none
+
 partial def pTy : P Ty
-  | "S" :: s :: r => (parseScalar s).map fun x => (.scalar x, r)
+  | "S" :: s :: r => (parseScalar s).map fun x => (.scalar (.base x), r)
+  | "D" :: k :: r => do
+      let k ← k.toNat?
+      let (ids, r') ← pNats k r
+      match r' with
+      | b :: r'' => (parseScalar b).map fun x => (.scalar (.derived ids x), r'')
+      | [] => none
+  | "E" :: n :: r => n.toNat?.map fun x => (.scalar (.enum x), r)
   | "O" :: n :: r => n.toNat?.map fun x => (.obj x, r)
   | "A" :: r => match pTy r with
     | some (t, r') => some (.array t, r')
@@ -87,6 +100,16 @@ partial def pQ : P Q
   | _ => none
 
 partial def pVal : P Val
+  | "de" :: k :: r => do
+      let k ← k.toNat?
+      let (ids, r') ← pNats k r
+      match r' with
+      | b :: r'' => do
+        let x ← parseScalar b
+        let (v, r3) ← pVal r''
+        pure (.derived ids x v, r3)
+      | [] => none
+  | "en" :: n :: k :: r => do let n ← n.toNat?; let k ← k.toNat?; pure (.enumv n k, r)
   | "li" :: n :: r => n.toInt?.map fun x => (.num .int64 x 0, r)
   | "nu" :: s :: n :: d :: r => do
       let s ← parseScalar s; let a ← n.toInt?; let b ← d.toNat?; pure (.num s a b, r)
@@ -97,7 +120,10 @@ partial def pVal : P Val
   | _ => none
 
 partial def showTy : Ty → String
-  | .scalar s => s!"S {scalarIdent s}"
+  | .scalar (.base s) => s!"S {scalarIdent s}"
+  | .scalar (.derived c s) =>
+    s!"D {c.length}" ++ String.join (c.map fun i => s!" {i}") ++ s!" {scalarIdent s}"
+  | .scalar (.enum n) => s!"E {n}"
   | .obj n => s!"O {n}"
   | .array t => s!"A {showTy t}"
   | .tuple ts => s!"T {ts.length}" ++ String.join (ts.map fun t => " " ++ showTy t)
